@@ -216,19 +216,20 @@ impl GitConfigGet for Option<String> {
 
 impl GitConfigGet for bool {
     fn git_config_get(key: &str, git_config: &GitConfig) -> Option<Self> {
-        match git_config.config_from_env_var.get(key).map(|s| s.as_str()) {
-            Some("true") => Some(true),
-            Some("false") => Some(false),
-            _ => git_config.config.get_bool(key).ok(),
+        if let Some(s) = git_config.config_from_env_var.get(key) {
+            if let Ok(b) = git2::Config::parse_bool(s.as_str()) {
+                return Some(b);
+            }
         }
+        git_config.config.get_bool(key).ok()
     }
 }
 
 impl GitConfigGet for usize {
     fn git_config_get(key: &str, git_config: &GitConfig) -> Option<Self> {
         if let Some(s) = git_config.config_from_env_var.get(key) {
-            if let Ok(n) = s.parse::<usize>() {
-                return Some(n);
+            if let Ok(n) = git2::Config::parse_i64(s.as_str()) {
+                return Some(n as usize);
             }
         }
         match git_config.config.get_i64(key) {
